@@ -8,7 +8,8 @@ EXTENDS CTypes
 CONSTANTS Depth,        \* constructors above a base type
           Profile       \* "small" | "mid" | "full": which base types / lengths / parameter lists
 (* Variant (declared in CTypes): "suffix-order" makes Read apply suffixes left to right,
-   "no-group" makes ParseC never take parentheses as grouping *)
+   "no-group" makes ParseC never take parentheses as grouping, "old-qual-loop" makes ParseC skip
+   qualifiers only before the first specifier keyword (parse_complete before /repo 795689f) *)
 
 -----------------------------------------------------------------------------
 (* characters and tokens *)
@@ -376,6 +377,7 @@ PMods(s, i, ml, ms) ==
                              ELSE PMods(s, i + 1, ml + 1, ms))
     ELSE IF k = "signed" THEN (IF ms # 0 THEN PErr("multiple 'signed' or 'unsigned'") ELSE PMods(s, i + 1, ml, ms + 1))
     ELSE IF k = "unsigned" THEN (IF ms # 0 THEN PErr("multiple 'signed' or 'unsigned'") ELSE PMods(s, i + 1, ml, ms - 1))
+    ELSE IF k \in Quals /\ Variant # "old-qual-loop" THEN PMods(s, i + 1, ml, ms)   \* "can be before or between the modifiers"
     ELSE [i |-> i, ml |-> ml, ms |-> ms]
 
 IntPrim(ml, ms) ==
@@ -385,7 +387,7 @@ IntPrim(ml, ms) ==
             [] ml = 2 -> "unsigned long long" [] OTHER -> "unsigned int")
 
 PComplete(s, i0, out) ==
-    LET i1 == SkipQuals(s, i0)
+    LET i1 == IF Variant = "old-qual-loop" THEN SkipQuals(s, i0) ELSE i0   \* before 795689f: a separate leading loop
         m == PMods(s, i1, 0, 0)
     IN IF IsErr(m) THEN m
        ELSE
@@ -467,7 +469,9 @@ ParseC(s) ==
 (* Where the two real parsers are known to part from the C grammar (these predicates are the
    keys of the listed findings; see design_notes/C07.md).  They are purely syntactic.    *)
 (* a qualifier that is followed by a specifier keyword although a specifier keyword came
-   before it ('unsigned const int', 'long volatile long') *)
+   before it ('unsigned const int', 'long volatile long').  No longer a class of ClassOf: the C
+   parser accepts these since /repo 795689f; the variant "old-qual-loop" of ParseC is the old code
+   and TLC must reject it. *)
 QualInsideSpecs(s) ==
     \E i \in 1..Len(s) :
        /\ s[i] \in Quals
@@ -561,8 +565,7 @@ RECURSIVE CountSpecs(_, _, _)
 CountSpecs(r, i, c) == IF i > Len(r) THEN c ELSE CountSpecs(r, i + 1, [c EXCEPT ![FieldOf(r[i])] = @ + 1])
 SpecifierConflict(s) == LET r == SpecRun(s) IN r # << >> /\ ~PrimOf(CountSpecs(r, 1, C0)).ok
 
-ClassOf(s) == (IF QualInsideSpecs(s) THEN {"qual-inside-specifiers"} ELSE {}) \cup
-              (IF ParenParen(s) THEN {"paren-paren"} ELSE {}) \cup
+ClassOf(s) == (IF ParenParen(s) THEN {"paren-paren"} ELSE {}) \cup
               (IF ParenIdent(s) THEN {"paren-ident"} ELSE {}) \cup
               (IF BaseBeforeModifier(s) THEN {"base-before-modifier"} ELSE {}) \cup
               (IF NoTypeSpecifier(s) THEN {"no-type-specifier"} ELSE {}) \cup
